@@ -302,3 +302,17 @@ Proof.
   intros Hok Hin te e HR. rewrite csig_of_emit. apply tff_of_formula_sat_in; [|exact HR].
   apply ctx_names_in; assumption.
 Qed.
+
+(* ---------- the symbol_order axioms in the problem's signature ---------- *)
+Theorem order_meaning p ab FI M : ident_ok p = true -> In ab (windows2 (sort_strings (problem_symbols p))) ->
+  forall te e, env_rel te e ->
+  (tff_sat (tstruct_in (csig_of_decls (tp_decls (emit p))) FI M) te (tff_of_formula (symbol_order_formula ab))
+   <-> csat FI M e (symbol_order_formula ab)).
+Proof.
+  intros Hok Hin te e HR. rewrite csig_of_emit. apply tff_of_formula_sat_in; [|exact HR].
+  apply windows2_in in Hin. destruct Hin as [Ha Hb].
+  assert (Ha' : In (fst ab) (problem_symbols p)) by (eapply Permutation_in; [apply sort_strings_perm|exact Ha]).
+  assert (Hb' : In (snd ab) (problem_symbols p)) by (eapply Permutation_in; [apply sort_strings_perm|exact Hb]).
+  unfold symbol_order_formula. cbn [names_in aformula_in gterm_in sterm_in forallb gterm_of].
+  rewrite (sym_in_ctx p Hok _ Ha'), (sym_in_ctx p Hok _ Hb'). reflexivity.
+Qed.
